@@ -165,6 +165,49 @@ pub fn observe(store: &AnnotationStore, with_handles: bool, with_lookups: bool) 
     guard(|| observe_unguarded(store, with_handles, with_lookups))
 }
 
+/// does following the annotation selectors of this annotation come back to an annotation already on the path (only possible in a
+/// store whose references were corrupted, e.g. by the recorded reindex finding)? The library's recursive walks do not end then.
+fn annotation_cycle_from(store: &AnnotationStore, start: &Selector) -> bool {
+    fn targets(sel: &Selector, out: &mut Vec<AnnotationHandle>) {
+        match sel {
+            Selector::AnnotationSelector(h, _) => out.push(*h),
+            Selector::RangedAnnotationSelector { begin, end, .. } => {
+                for i in begin.as_usize()..=end.as_usize() {
+                    out.push(AnnotationHandle::new(i));
+                }
+            }
+            Selector::MultiSelector(v) | Selector::CompositeSelector(v) | Selector::DirectionalSelector(v) => v.iter().for_each(|s| targets(s, out)),
+            _ => {}
+        }
+    }
+    // (the walk goes from slot to slot, like the library's: after the recorded reindex finding an item's own handle may name another slot)
+    fn walk(store: &AnnotationStore, sel: &Selector, path: &mut Vec<AnnotationHandle>, budget: &mut usize) -> bool {
+        let mut t = Vec::new();
+        targets(sel, &mut t);
+        for h in t {
+            if path.contains(&h) || *budget == 0 {
+                return true;
+            }
+            *budget -= 1;
+            let Some(a) = store.annotation(h) else { continue };
+            path.push(h);
+            let r = walk(store, a.as_ref().target(), path, budget);
+            path.pop();
+            if r {
+                return true;
+            }
+        }
+        false
+    }
+    let mut budget = 2000;
+    walk(store, start, &mut Vec::new(), &mut budget)
+}
+
+fn res_names(mut v: Vec<(usize, String)>) -> Vec<String> {
+    v.sort();
+    v.into_iter().map(|x| x.1).collect()
+}
+
 fn observe_unguarded(store: &AnnotationStore, with_handles: bool, with_lookups: bool) -> Value {
     let names = Names::new(store);
     let mut resources = Vec::new();
@@ -218,6 +261,7 @@ fn observe_unguarded(store: &AnnotationStore, with_handles: bool, with_lookups: 
             .iter()
             .map(|(s, d)| json!([set_name(store, *s), data_name(store, *s, *d)]))
             .collect();
+        let cyclic = annotation_cycle_from(store, a.as_ref().target());
         let mut o = json!({
             "name": names.ann(a.handle()),
             "id": a.id(),
@@ -225,6 +269,8 @@ fn observe_unguarded(store: &AnnotationStore, with_handles: bool, with_lookups: 
             "data": data,
             "textselections": tsel,
             "text": text,
+            "resources": if cyclic { vec!["<annotation selectors form a cycle>".to_string()] } else { res_names(a.resources().map(|r| (r.handle().as_usize(), r.id().unwrap_or("").to_string())).collect()) },
+            "resources_as_metadata": if cyclic { vec!["<annotation selectors form a cycle>".to_string()] } else { res_names(a.resources_as_metadata().map(|r| (r.handle().as_usize(), r.id().unwrap_or("").to_string())).collect()) },
         });
         if with_handles {
             o["h"] = json!(a.handle().as_usize());
